@@ -257,6 +257,65 @@ def w_pop_history(case):
         'violations': viol}
 
 
+def w_ctor(case):
+    """Composed model whose heterogeneous sub-models were constructed for their own
+    numbers of individuals (all counts > 1 equal, as the constructor demands), then a
+    sequence of set_n_ids calls; counts / names / accepted lengths after every step."""
+    subs = []
+    for kind, d, n in case['subs']:
+        if kind == 'H':
+            subs.append(chi.HeterogeneousModel(n_dim=d, n_ids=n))
+        elif kind == 'CovH':
+            subs.append(chi.CovariatePopulationModel(
+                chi.HeterogeneousModel(n_dim=d, n_ids=n),
+                chi.LinearCovariateModel(n_cov=1)))
+        elif kind == 'CompH':
+            subs.append(chi.ComposedPopulationModel(
+                [chi.HeterogeneousModel(n_dim=d, n_ids=n)]))
+        elif kind == 'G':
+            subs.append(chi.GaussianModel(n_dim=d))
+        else:
+            subs.append(chi.PooledModel(n_dim=d))
+    viol = []
+    m = chi.ComposedPopulationModel(subs)
+    lab = 'Composed%s' % case['subs']
+    facts = [check_pop(m, viol, lab + ' as constructed')]
+    n_max = max(n for _, _, n in case['subs'])
+    if not viol and m.n_ids() != n_max:
+        viol.append({'sub': 'ctor_n_ids', 'message': 'composed model does not model '
+                     'the number of individuals its sub-models were constructed for '
+                     '(%s)' % lab, 'expected': n_max, 'observed': m.n_ids(),
+                     'behaviour': 'ctor_n_ids'})
+    for k, n in enumerate(case['then']):
+        if viol:
+            break
+        m.set_n_ids(n)
+        facts.append(check_pop(m, viol, lab + ' then set_n_ids %s'
+                               % case['then'][:k + 1]))
+        if not viol and m.n_ids() != n:
+            viol.append({'sub': 'n_ids', 'message': 'n_ids() after set_n_ids (%s)'
+                         % lab, 'expected': n, 'observed': m.n_ids()})
+    if not viol:
+        # and as the population model of a hierarchical likelihood
+        n_ids = m.n_ids()
+        lls = [chi.LogLikelihood(ToyModel(m.n_dim() - 1, 1),
+                                 chi.GaussianErrorModel(), [1.0, 2.0], [0.5, 1.5])
+               for _ in range(n_ids)]
+        cov = np.full((n_ids, m.n_covariates()), 0.3) if m.n_covariates() else None
+        h = chi.HierarchicalLogLikelihood(lls, m, cov)
+        f = {'n': h.n_parameters(), 'names': len(h.get_parameter_names()),
+             'ids': len(h.get_id()),
+             'grad': len(h.evaluateS1(np.full(h.n_parameters(), 0.9))[1])}
+        if len(set(f.values())) != 1:
+            viol.append({'sub': 'hier_agree', 'message': 'hierarchical likelihood '
+                         'counts / names / ids / gradient lengths disagree (%s)'
+                         % lab, 'expected': 'equal', 'observed': f,
+                         'behaviour': 'hier_agree'})
+        facts.append(f)
+    return {'transitions': 2 + len(case['then']), 'outcome': key_of(facts),
+            'violations': viol}
+
+
 # ------------------------------------------------------------- (c) other objects
 
 def w_objects(case):
@@ -414,7 +473,7 @@ def w_objects(case):
             'violations': viol}
 
 
-WORKERS = {'hierarchical': w_hier, 'objects': w_objects}
+WORKERS = {'hierarchical': w_hier, 'objects': w_objects, 'ctor_n_ids': w_ctor}
 for _b in POP_BASES:
     WORKERS['pop_' + _b] = w_pop_history
 
@@ -485,8 +544,29 @@ def build(tier, seed):
             if idx and any(o[0] == 'adm' for o in seq[idx[0]:]):
                 continue
             objs.append({'kind': 'mech', 'ops': [list(o) for o in seq]})
+    # sub-models constructed for their own numbers of individuals
+    ctor = []
+    # (a covariate model around a heterogeneous model has no subpopulation
+    # distribution to shift and is not part of the alphabet, cf. hier.KINDS)
+    sub_kinds = [('H', 1), ('CompH', 1), ('H', 2)]
+    for k in (2, 3):
+        for kinds_ in itertools.product(sub_kinds, repeat=k - 1):
+            for ns in itertools.product((1, 2, 3), repeat=k - 1):
+                if len(set(n for n in ns if n > 1)) > 1:
+                    continue        # the constructor refuses differing counts > 1
+                for pos in range(k):
+                    subs = [[kd[0], kd[1], n] for kd, n in zip(kinds_, ns)]
+                    subs.insert(pos, ['G', 2, 1])
+                    thens = [[], [1], [2], [3], [2, 1], [3, 2]]
+                    for then in (thens if tier == 'thorough' or k == 2
+                                 else thens[:4]):
+                        ctor.append({'subs': subs, 'then': then})
     return {
         'parts': [
+            Part('ctor_n_ids', ctor, w_ctor,
+                 'composed models of heterogeneous sub-models (plain, nested) '
+                 'constructed for their own numbers of individuals, '
+                 'then set_n_ids sequences'),
             Part('hierarchical', hc, w_hier,
                  'all population compositions in likelihood / posterior'),
             Part('objects', objs, w_objects,
